@@ -292,7 +292,9 @@ func runDriver(lines [][]byte) []map[string]any {
 					continue
 				}
 				var m map[string]any
-				if jerr := json.Unmarshal(line, &m); jerr != nil {
+				dec := json.NewDecoder(bytes.NewReader(line))
+				dec.UseNumber() // integers beyond 2^53 (versions, generations, seeds) stay exact
+				if jerr := dec.Decode(&m); jerr != nil {
 					m = map[string]any{"harnessError": "driver answer unparsable: " + jerr.Error()}
 				}
 				out[i] = m
